@@ -239,12 +239,12 @@ func (f *g2lFn) primCall(c *ast.CallExpr, fn *types.Func) (string, bool) {
 			args = append(args, "_")
 			continue
 		}
-		if sig.Variadic() && i >= ps.Len()-1 {
+		if sig.Variadic() && i >= ps.Len()-1 && !(f.g.refsOn() && c.Ellipsis.IsValid() && i == ps.Len()-1) { // go2lean_refs.go: f(xs...) passes the slice
 			f.fail("the template of primitive `%s` mentions a variadic argument", key)
 		}
 		args = append(args, f.callArgs(fn, c.Args[i:i+1], true)[0])
 	}
-	return g2lTemplate(tmpl, args), true
+	return g2lTemplate(f.srcArgs(tmpl, c, off), args), true // go2lean_refs.go: {i:src}
 }
 
 // emitInOutFacts writes the bookkeeping of this file.
